@@ -200,6 +200,23 @@ fn desc_models() -> Vec<D> {
             out.push(D::Tr("I".into(), ls));
         }
     }
+    // deep trees: every shape of up to 4 leaves below a left / right spine so that the deepest
+    // leaves are at depth 127 and 128 (the parser's depth-128 special case with several sibling pairs)
+    for n in 1..=4usize {
+        for b in Shape::all(n) {
+            let bd = *b.depths().iter().max().unwrap() as usize;
+            for total in [127usize, 128] {
+                for left in [true, false] {
+                    let mut sh = b.clone();
+                    for _ in 0..(total - bd) {
+                        sh = if left { Shape::Node(Box::new(sh), Box::new(Shape::Leaf)) } else { Shape::Node(Box::new(Shape::Leaf), Box::new(sh)) };
+                    }
+                    let ls: Vec<(u8, T)> = sh.depths().iter().enumerate().map(|(i, d)| (*d, pk(&format!("K{}", i)))).collect();
+                    out.push(D::Tr("I".into(), ls));
+                }
+            }
+        }
+    }
     out
 }
 
